@@ -369,8 +369,14 @@ class GPTNeoXKFACPreconditioner(BaseKFACPreconditioner):
             # Inv worker for A and G is the same for GPT training
             if get_rank() == self._assignment.inv_worker(name, 'A'):
                 layer_state_dict = layer.state_dict()
-                assert layer_state_dict['A'] is not None
-                assert layer_state_dict['G'] is not None
+                if (
+                    layer_state_dict['A'] is None
+                    or layer_state_dict['G'] is None
+                ):
+                    # Factors have not been computed yet (e.g., state is
+                    # saved before the first step) so there is nothing
+                    # to save for this layer.
+                    continue
                 # Move to CPU where we have more RAM
                 layer_state_dict['A'] = layer_state_dict['A'].cpu()
                 layer_state_dict['G'] = layer_state_dict['G'].cpu()
@@ -420,7 +426,11 @@ class GPTNeoXKFACPreconditioner(BaseKFACPreconditioner):
                     )
                     state_dict = torch.load(filepath)
                     layer.load_state_dict(state_dict)
-                    if compute_inverses:
+                    if (
+                        compute_inverses
+                        and layer.a_factor is not None
+                        and layer.g_factor is not None
+                    ):
                         layer.compute_a_inv(damping=self.damping)
                         layer.compute_g_inv(damping=self.damping)
 
